@@ -32,6 +32,7 @@ class FnReport:
     error: Optional[str] = None       # unsupported construct / extraction failure (=> undecided)
     paths: int = 0
     gen_time_s: float = 0.0
+    untouched: List[str] = field(default_factory=list)
 
 
 class Engine(ExprMixin, CallMixin, StmtMixin):
@@ -61,6 +62,7 @@ class Engine(ExprMixin, CallMixin, StmtMixin):
         self._oid = 0
         self._feas_solver = None
         self.syntactic = 0
+        self.touched = set()
 
     # ---------------------------------------------------------------- axioms
     def axioms(self) -> List[Any]:
@@ -90,6 +92,7 @@ class Engine(ExprMixin, CallMixin, StmtMixin):
     def oblige(self, st: St, kind: str, label: str, goal, node=None, expect_fail=False):
         if self.spec_mode and kind == "safe":
             return
+        self.touched.add(f"{kind}:{label.split('@')[0]}")
         goal = z3.simplify(goal) if z3.is_expr(goal) else z3.BoolVal(bool(goal))
         if z3.is_true(goal):
             return
@@ -225,6 +228,7 @@ class Engine(ExprMixin, CallMixin, StmtMixin):
         self.cur_fn = target.split(":")[1]
         self.cur_module = target.split(":")[0]
         self.obligations = []
+        self.touched = set()
         self.written = set()
         self.raised = []
         self.binders = []
@@ -297,6 +301,8 @@ class Engine(ExprMixin, CallMixin, StmtMixin):
         except Unsupported as e:
             rep.error = f"unsupported: {e}"
         rep.obligations = self.obligations
+        # vacuity guard: every postcondition of the contract was generated on at least one path
+        rep.untouched = [lab for lab, _ in c.ensures if f"post:{lab}" not in self.touched] if not rep.error else []
         rep.gen_time_s = time.time() - t0
         return rep
 
